@@ -332,13 +332,13 @@ def report(ev, prop, violations, hits, known_by_id, cases_lookup=None):
 
 
 # ----------------------------------------------------------------------------- stages
-def eval_stage(ev, prop, universe, checks, tier, seed, timeout=1500, label=None, mode=None):
+def eval_stage(ev, prop, universe, checks, tier, seed, timeout=1500, label=None, mode=None, cfg=None):
     """Evaluation machine over one universe, every finished behaviour replayed into the code."""
     cases = os.path.join(WORK, f"{prop}-{universe}-{os.getpid()}.cases")
     env = {"VERIF_UNIVERSE": universe, "VERIF_TIER": tier, "VERIF_SEED": str(seed)}
     if mode:
         env["VERIF_MODE"] = mode
-    r = run_tlc("Evaluator", env=env, cases_path=cases, timeout=timeout)
+    r = run_tlc("Evaluator", cfg=cfg, env=env, cases_path=cases, timeout=timeout)
     if r.nreplay == 0:
         raise ToolError(f"universe {universe} produced no behaviours (vacuous)")
     ev.add_tlc(label or f"Evaluator[{universe}]", r,
@@ -665,8 +665,8 @@ def GS(prop, mode, checks):
     return lambda ev, tier, seed: grammar_stage(ev, prop, mode, checks, tier, seed)
 
 
-def ES(prop, universe, checks, label=None, mode=None):
-    return lambda ev, tier, seed: eval_stage(ev, prop, universe, checks, tier, seed, label=label, mode=mode)
+def ES(prop, universe, checks, label=None, mode=None, cfg=None):
+    return lambda ev, tier, seed: eval_stage(ev, prop, universe, checks, tier, seed, label=label, mode=mode, cfg=cfg)
 
 
 PROPS = {}
